@@ -45,13 +45,14 @@ type shOp struct {
 }
 
 type shScenario struct {
-	Kind      ClientKind
-	Callers   [][]shOp
-	CloseAt   time.Duration // <0: no Close task
-	ConnectAt time.Duration // <0: no Connect task
-	DevDelay  time.Duration // max device think time
-	Race      bool
-	Cancels   bool // some calls carry short context deadlines (stale replies follow: attribution oracles off, transport monitors on)
+	Kind        ClientKind
+	Callers     [][]shOp
+	CloseAt     time.Duration // <0: no Close task
+	ConnectAt   time.Duration // <0: no Connect task
+	DevDelay    time.Duration // max device think time
+	Race        bool
+	Cancels     bool // some calls carry short context deadlines (stale replies follow: attribution oracles off, transport monitors on)
+	FineGrained bool
 }
 
 type shRec struct {
@@ -134,6 +135,7 @@ func genC14(t *Tape) *shScenario {
 		sc.ConnectAt = time.Duration(t.Choose(60000)) * time.Microsecond
 	}
 	sc.DevDelay = []time.Duration{0, 200 * time.Microsecond, 3 * time.Millisecond}[t.Choose(3)]
+	sc.FineGrained = t.Chance(1, 3) // other tasks may also run between SetReadDeadline and Read of one loop iteration
 	if t.Chance(1, 4) {
 		sc.Cancels = true
 		sc.DevDelay = 3 * time.Millisecond
@@ -274,6 +276,7 @@ func runShared(rc *RunCtx, sc *shScenario) *shOutcome {
 		k := pipeSeq.Add(1)
 		cl, dev := NewPipe(s, fmt.Sprintf("p%d", k))
 		cl.Name = fmt.Sprintf("p%d.cli", k)
+		cl.YieldSetDeadline = sc.FineGrained
 		dev.Name = fmt.Sprintf("p%d.dev", k)
 		if !sc.Race {
 			reading := 0
